@@ -162,11 +162,24 @@ func cmdCheck(args []string) int {
 			undecided = append(undecided, "contract-drift: "+d)
 		}
 	}
+	for _, ln := range def.Lemmas {
+		r := verifyLemma(prog, ln)
+		results = append(results, r)
+		for _, e := range r.Errors {
+			undecided = append(undecided, "engine: "+e)
+		}
+		for _, d := range r.Drift {
+			undecided = append(undecided, "contract-drift: "+d)
+		}
+	}
 	if prog.contracts.NAssume > 0 {
 		undecided = append(undecided, fmt.Sprintf("contract files contain %d assume clauses", prog.contracts.NAssume))
 	}
 	filter := func(r *FuncResult) func(o *Obl) bool {
 		return func(o *Obl) bool {
+			if strings.HasPrefix(r.Name, "lemma:") {
+				return true
+			}
 			for _, s := range def.Select {
 				if s.matches(r.Name, o) {
 					return true
